@@ -331,6 +331,47 @@ class G:
                 c.add_combinator(inner, set(rng.sample(NAMES, rng.randint(1, 2))))
         return c
 
+    # ---------------------------------------------------------------- growth of an already persisted graph
+    def grow(self, phase):
+        """Extend a graph whose entities may already be persisted: new input / output ports on existing steps,
+        new steps reading existing ports, new lonely ports.  Only wiring is added to existing steps (their
+        constructor parameters and status are rows written once, so they are left alone): no new output port on an
+        ExecuteStep (that would add an output processor to its saved parameters), no new skip ports; names are new
+        (`g<phase>-...`), an existing name is never re-bound and a port is never wired twice to one step."""
+        from streamflow.core.exception import WorkflowDefinitionException
+        from streamflow.workflow.step import ExecuteStep
+
+        rng = self.rng
+        done = collections.Counter()
+        old_steps = list(self.wf.steps.values())
+        old_ports = list(self.wf.ports.values())
+        for i, st in enumerate(rng.sample(old_steps, min(len(old_steps), rng.randint(1, 4)))):
+            for j in range(rng.randint(1, 2)):
+                try:
+                    if rng.random() < 0.5:
+                        st.add_input_port(f"g{phase}-in{i}{j}-{rng.choice(NAMES)}", self.port())
+                        done["new_input_port_on_saved_step"] += 1
+                    elif not isinstance(st, ExecuteStep):
+                        st.add_output_port(f"g{phase}-out{i}{j}-{rng.choice(NAMES)}", self.port())
+                        done["new_output_port_on_saved_step"] += 1
+                except WorkflowDefinitionException:
+                    done["growth_refused_by_step_class"] += 1
+        for _ in range(rng.randint(1, 3)):
+            st = self.add_random_step()
+            done["new_step"] += 1
+            if old_ports:
+                p = rng.choice(old_ports)
+                if p.name not in st.input_ports.values() and p.name not in st.output_ports.values():
+                    try:
+                        st.add_input_port(f"g{phase}-old-{rng.choice(NAMES)}", p)
+                        done["new_step_reads_saved_port"] += 1
+                    except WorkflowDefinitionException:
+                        pass
+        for _ in range(rng.randint(0, 2)):
+            self.port()
+            done["new_lonely_port"] += 1
+        return done
+
     # ---------------------------------------------------------------- steps
     def add_random_step(self, kind=None, sub=None):
         from streamflow.cwl import step as cs
@@ -430,6 +471,52 @@ TOK_KINDS = ["cwl", "map", "obj", "union", "null"]
 COMB_KINDS = ["cart", "dot", "loop", "term", "merge"]
 SIMPLE_TR = ["AllNonNullTransformer", "BroadcastTransformer", "CartesianProductSizeTransformer", "DotProductSizeTransformer",
              "FirstNonNullTransformer", "ForwardTransformer", "ListToElementTransformer", "OnlyNonNullTransformer"]
+
+
+def build_incremental(rng, ctx):
+    """(workflow, phases): the caller saves the workflow, calls phases[0](), saves, calls phases[1]() ... and only
+    then runs the usual save / load / copy oracles on the final graph."""
+    g = G(rng, ctx, cwl=rng.random() < 0.75)
+    for _ in range(rng.randint(1, 4)):
+        g.add_random_step()
+    pnames = list(g.wf.ports)
+    for i in range(rng.randint(0, 2)):
+        if pnames:
+            g.wf.output_ports[f"out{i}-{rng.choice(NAMES)}"] = rng.choice(pnames)
+    growth = collections.Counter()
+    phases = [(lambda k=k: growth.update(g.grow(k))) for k in range(rng.randint(1, 2))]
+    info = {"variant": "incremental", "growth": growth, "used": g.used}
+    return g.wf, phases, info
+
+
+def build_shared_forest(rng):
+    """composite tokens (List / Object / Job, nested up to 2 more levels) that share UNSAVED inner tokens"""
+    from streamflow.core.workflow import Job
+    from streamflow.workflow.token import JobToken, ListToken, ObjectToken
+
+    inners = [build_token(rng, depth=2, allow_job=False) for _ in range(rng.randint(2, 5))]
+
+    def wrap(t, depth=0):
+        k = rng.choice(["list", "object", "job"] if depth == 0 else ["list", "object", "job", "none"])
+        if k == "none":
+            return t
+        tag = rng.choice(["0", "0.1", "0.2.3"])
+        if k == "list":
+            items = [t] + [build_token(rng, depth=3, allow_job=False) for _ in range(rng.randint(0, 2))]
+            if rng.random() < 0.4:
+                items.append(rng.choice(inners))
+            rng.shuffle(items)
+            w = ListToken(value=items, tag=tag)
+        elif k == "object":
+            d = {"k" + str(i): x for i, x in enumerate([t] + ([rng.choice(inners)] if rng.random() < 0.4 else []))}
+            w = ObjectToken(value=d, tag=tag)
+        else:
+            w = JobToken(value=Job(name="/s/" + tag, workflow_id=1, inputs={"i": t, **({"j": rng.choice(inners)} if rng.random() < 0.4 else {})},
+                                   input_directory=None, output_directory="/o", tmp_directory=None), tag=tag)
+        return wrap(w, depth + 1) if depth < 2 and rng.random() < 0.4 else w
+
+    parents = [wrap(rng.choice(inners)) for _ in range(rng.randint(4, 12))]
+    return parents, inners
 
 
 def build_graph(rng, ctx, variant="generic"):
